@@ -321,7 +321,8 @@ theorem hslOfParts_real (mx mn sep coeff : ℝ) :
   unfold hslOfParts hsvOfParts
   by_cases h : mx = mn
   · rw [if_neg (by rw [eqv_iff]; exact not_not.mpr h), if_neg (by rw [eqv_iff]; exact not_not.mpr h), if_pos h]; norm_num
-  · rw [if_pos (by rw [eqv_iff]; exact h), if_pos (by rw [eqv_iff]; exact h), if_neg h]; norm_num
+  · -- the code's denominator `(1 − max) + (1 − min)` is `2 − (max + min)` at ℝ
+    rw [if_pos (by rw [eqv_iff]; exact h), if_pos (by rw [eqv_iff]; exact h), if_neg h, RealScalar.invertedSum_eq]; norm_num
     split_ifs <;> rfl
 
 noncomputable def hslMaskCore (R G B : ℝ) : V3 ℝ :=
@@ -333,7 +334,7 @@ noncomputable def hslMaskCore (R G B : ℝ) : V3 ℝ :=
 
 theorem rgbToHslMask_core (c : V3 ℝ) : rgbToHslMask c = hslMaskCore (max c.c0 0.0) (max c.c1 0.0) (max c.c2 0.0) := by
   unfold rgbToHslMask hslMaskCore lazySelect
-  simp only [vsel, veq, vgt, vmax, vmin, decide_eq_true_eq]
+  simp only [vsel, veq, vgt, vmax, vmin, decide_eq_true_eq, RealScalar.invertedSum_eq]
   norm_num
 
 /-- **Rgb → Hsl: the branch-free algorithm agrees with the scalar one for every rgb**, up to the unsigned normal form of the hue -/
